@@ -2,6 +2,7 @@
 //! --model <tvmodel> --scratch <dir> --out <report.json> [--replay file]`
 mod common;
 mod engines;
+mod sqlgen;
 use common::*;
 
 fn main() {
